@@ -281,6 +281,10 @@ def body_text(case):
         out.label("text-precheck-rejected")
         out.nontrivial = False
         return out
+    if how != "json" and "'2001-12-14'" in text:
+        # the planted date is written as a plain scalar: a YAML timestamp (both parses must read it alike)
+        text = text.replace("'2001-12-14'", "2001-12-14")
+        out.label("yaml-timestamp")
     out.sample = text[:400]
 
     td_holder = tempfile.TemporaryDirectory() if how == "yaml-file" else None
@@ -312,6 +316,26 @@ def body_text(case):
         if td_holder is not None:
             td_holder.cleanup()
         return out
+    # in between, the other loaders are used on other texts as well (a schema file with extra top-level keys next to
+    # `rules`, a plain one): what a loader does to one text has no bearing on how the next text is read
+    if how != "json":
+        try:
+            with warnings.catch_warnings():
+                warnings.simplefilter("ignore")
+                with tempfile.TemporaryDirectory() as td2:
+                    f2 = os.path.join(td2, "other.yaml")
+                    with open(f2, "w", encoding="utf-8") as fh:
+                        fh.write("default_part_type: list_value\nversion: 1\ndefaults: {type: list_value}\nrules:\n- path: [a, {value.truthy: null}]\n  condition: {value.equal_to: 2001-12-14}\n")
+                    try:
+                        ns.s.Schema.from_yaml_file(f2)
+                    except Exception:
+                        pass
+                try:
+                    ns.s.Schema.from_yaml("strict: true\ndefault_part_type: map_value\nrules: []\n")
+                except Exception:
+                    pass
+        except Exception:
+            pass
     if between is not None:
         out.label(f"between:{between.split(chr(10))[0]}")
         try:
